@@ -16,13 +16,14 @@
 (***************************************************************************)
 EXTENDS FakeQueue, Json, IOUtils
 
-VARIABLES l, count, lastTs, slack, lost   \* lost: values not seen again although their repeat count was not exhausted
+VARIABLES l, count, lastTs, slack, lost,  \* lost: values not seen again although their repeat count was not exhausted
+          wire                            \* the emissions were read off the fake agent's gRPC stream: no repeat count, no timestamp on the sync marker
 Trace == ndJsonDeserialize(IOEnv.TRACE)
-tvars == <<vals, buckets, emitted, l, count, lastTs, slack, lost>>
+tvars == <<vals, buckets, emitted, l, count, lastTs, slack, lost, wire>>
 Ev == Trace[l]
 St(name) == l <= Len(Trace) /\ Trace[l].ev = name /\ l' = l + 1
 
-TInit == vals = <<>> /\ buckets = <<>> /\ emitted = <<>> /\ l = 1 /\ count = <<>> /\ lastTs = 0 /\ slack = 0 /\ lost = {} /\ TLCSet(1, 1)
+TInit == vals = <<>> /\ buckets = <<>> /\ emitted = <<>> /\ l = 1 /\ count = <<>> /\ lastTs = 0 /\ slack = 0 /\ lost = {} /\ wire = FALSE /\ TLCSet(1, 1)
 
 RECURSIVE BuildSeq(_, _, _)
 BuildSeq(bk, vs, i) == IF i > Len(vs) THEN bk ELSE BuildSeq(InsertB(bk, vs[i].id, vs[i].ts), vs, i + 1)
@@ -32,7 +33,7 @@ TCfg ==
     /\ vals' = [id \in {Ev.vals[i].id : i \in 1..Len(Ev.vals)} |-> Ev.vals[CHOOSE i \in 1..Len(Ev.vals) : Ev.vals[i].id = id]]
     /\ buckets' = BuildSeq(<<>>, Ev.vals, 1)        \* in configuration order: equal timestamps keep it
     /\ count' = [id \in {Ev.vals[i].id : i \in 1..Len(Ev.vals)} |-> 0]
-    /\ lastTs' = 0 /\ slack' = Ev.slack /\ emitted' = <<>> /\ lost' = {}
+    /\ lastTs' = 0 /\ slack' = Ev.slack /\ emitted' = <<>> /\ lost' = {} /\ wire' = (Ev.obs = "wire")
 
 TNextEv ==
     /\ St("next")
@@ -41,7 +42,9 @@ TNextEv ==
     /\ LET id == Ev.id
            v == vals[id]
            e == Ev IN
-       /\ e.id = id /\ e.ts = v.ts /\ e.val = v.val /\ e.repeat = v.repeat        \* exactly the pending value, in bucket order
+       /\ e.id = id /\ e.val = v.val                                               \* exactly the pending value, in bucket order
+       /\ (wire \/ e.repeat = v.repeat) = TRUE
+       /\ ((wire /\ v.kind = "sync") \/ e.ts = v.ts) = TRUE                         \* (the sync response carries no timestamp)
        /\ e.ts >= lastTs                                                           \* non-decreasing timestamps
        /\ e.id2 = e.id /\ e.ts2 = e.ts /\ e.val2 = e.val                          \* same config + same seed: same sequence
        /\ (v.kind = "sync" => \A o \in DOMAIN count : o = id \/ count[o] >= 1) = TRUE
@@ -59,13 +62,13 @@ TNextEv ==
                /\ vals' = [vals EXCEPT ![id] = [@ EXCEPT !.ts = e.nts, !.val = e.nval, !.pos = NextPos(v),
                                                          !.repeat = IF @ > 1 THEN @ - 1 ELSE @]]
                /\ buckets' = InsertB(RemoveB(buckets, id), id, e.nts)
-    /\ UNCHANGED <<emitted, slack>>
+    /\ UNCHANGED <<emitted, slack, wire>>
 
 (* the queue ran empty: every value with repeat k > 0 was emitted exactly k times *)
 TEnd ==
     /\ St("end")
     /\ (Ev.kind = "exhausted") => (buckets = <<>> /\ lost = {})
-    /\ UNCHANGED <<vals, buckets, emitted, count, lastTs, slack, lost>>
+    /\ UNCHANGED <<vals, buckets, emitted, count, lastTs, slack, lost, wire>>
 
 TNext == TCfg \/ TNextEv \/ TEnd
 TSpec == TInit /\ [][TNext]_tvars
